@@ -62,7 +62,7 @@ Proof.
 Qed.
 
 (* ---------- the excess ledger (ExcessLedger.excess_ledger) on a concrete history ---------- *)
-From MD.Proofs Require Import PmChainProofs ExcessLedger ClaimSplit.
+From MD.Proofs Require Import PmChainProofs ExcessLedger ClaimSplit ClaimTwice.
 
 Definition setup0 : list op := firstn 2 ops0.         (* pool creation, first deposit *)
 Definition core0 : list op :=
@@ -157,4 +157,42 @@ Proof.
   exists w0. split; [reflexivity|]. cbv zeta.
   assert (Hw : w0 = match genesis_world g0 with Ok w => w | Err _ => w0 end) by (rewrite E; reflexivity).
   rewrite Hw. clear. eexists. split; [vm_compute; reflexivity|]. vm_compute. repeat split; reflexivity.
+Qed.
+
+(* ---------- ClaimTwice.claim_twice_single_lp on a real world: alice (one LP denom, cursor 2) at epoch 4 ---------- *)
+Definition twice_statement : Prop :=
+  exists w0, genesis_world g0 = Ok w0 /\
+    let wA := run w0 (ops0 ++ [SetBlock (day 4)]) in
+    exists sA msgs1 sB msgs2 sC msgsC,
+      claim wA "alice" [] (Some 3) = Ok (sA, msgs1) /\
+      claim (set_fm wA sA) "alice" [] (Some 4) = Ok (sB, msgs2) /\
+      claim wA "alice" [] (Some 4) = Ok (sC, msgsC) /\
+      unique_lp_denoms (positions_by_receiver (w_fm wA) "alice" true) = [lp0] /\
+      lc_get (fm_last_claimed (w_fm wA)) "alice" = Some 2 /\
+      out_amt msgs1 "uusdc" = 262 /\ out_amt msgs2 "uusdc" = 262 /\ out_amt msgsC "uusdc" = 524.
+
+Lemma twice_example : twice_statement.
+Proof.
+  unfold twice_statement.
+  destruct (genesis_world g0) as [w0|e] eqn:E; [|vm_compute in E; discriminate].
+  exists w0. split; [reflexivity|]. cbv zeta.
+  assert (Hw : w0 = match genesis_world g0 with Ok w => w | Err _ => w0 end) by (rewrite E; reflexivity).
+  rewrite Hw. clear.
+  set (wA := run match genesis_world g0 with Ok w => w | Err _ => w0 end (ops0 ++ [SetBlock (day 4)])).
+  destruct (claim wA "alice" [] (Some 3)) as [[sA msgs1]|e] eqn:E1; [|vm_compute in E1; discriminate].
+  exists sA, msgs1.
+  assert (HsA : (sA, msgs1) = match claim wA "alice" [] (Some 3) with Ok r => r | Err _ => (sA, msgs1) end) by (rewrite E1; reflexivity).
+  destruct (claim (set_fm wA sA) "alice" [] (Some 4)) as [[sB msgs2]|e] eqn:E2.
+  2:{ exfalso. replace sA with (fst (sA, msgs1)) in E2 by reflexivity. rewrite HsA in E2. vm_compute in E2. discriminate. }
+  destruct (claim wA "alice" [] (Some 4)) as [[sC msgsC]|e] eqn:E3; [|vm_compute in E3; discriminate].
+  exists sB, msgs2, sC, msgsC. split; [reflexivity|]. split; [reflexivity|]. split; [reflexivity|].
+  split; [vm_compute; reflexivity|]. split; [vm_compute; reflexivity|].
+  split.
+  { replace msgs1 with (snd (sA, msgs1)) by reflexivity. rewrite HsA. vm_compute. reflexivity. }
+  split.
+  { assert (H2 : (sB, msgs2) = match claim (set_fm wA (fst (match claim wA "alice" [] (Some 3) with Ok r => r | Err _ => (sA, msgs1) end))) "alice" [] (Some 4) with Ok r => r | Err _ => (sB, msgs2) end).
+    { rewrite <- HsA. cbn [fst]. rewrite E2. reflexivity. }
+    replace msgs2 with (snd (sB, msgs2)) by reflexivity. rewrite H2. vm_compute. reflexivity. }
+  assert (H3 : (sC, msgsC) = match claim wA "alice" [] (Some 4) with Ok r => r | Err _ => (sC, msgsC) end) by (rewrite E3; reflexivity).
+  replace msgsC with (snd (sC, msgsC)) by reflexivity. rewrite H3. vm_compute. reflexivity.
 Qed.
